@@ -162,13 +162,17 @@ def native_run(sylt, files, timeout=20):
     try:
         for rel, text in files.items():
             p = os.path.join(d, rel); os.makedirs(os.path.dirname(p), exist_ok=True); open(p, "w", encoding="utf-8", newline="").write(text)
-        t0 = time.time()
-        try: r = subprocess.run([sylt, "-o", "out.lua", "main.sy"], cwd=d, capture_output=True, text=True, timeout=timeout)
+        import resource
+        cpu = lambda: sum(resource.getrusage(resource.RUSAGE_CHILDREN)[:2])      # CPU seconds of finished children: independent of the machine's load
+        c0 = cpu()
+        try: r = subprocess.run([sylt, "-o", "out.lua", "main.sy"], cwd=d, capture_output=True, text=True, timeout=max(timeout, 10) * 6)
         except subprocess.TimeoutExpired: return "timeout", timeout, ""
+        dt = cpu() - c0
         out = r.stdout + r.stderr
-        if "panicked" in out or r.returncode not in (0, 1): return "panic", time.time() - t0, out[-400:]
-        if r.returncode == 1 and "error" not in out.lower(): return "silent_failure", time.time() - t0, out[-200:]
-        return "ok", time.time() - t0, ""
+        if "panicked" in out or r.returncode not in (0, 1): return "panic", dt, out[-400:]
+        if r.returncode == 1 and "error" not in out.lower(): return "silent_failure", dt, out[-200:]
+        if dt > timeout: return "timeout", dt, ""
+        return "ok", dt, ""
     finally: shutil.rmtree(d, ignore_errors=True)
 
 
@@ -223,7 +227,7 @@ def native_part(art, tier, stats, fnd):
             if st == "timeout" or dt > 5:
                 first_slow = d; break
         if first_slow is not None:
-            fnd.report("native-slow:%s:from-%d" % (kind, first_slow), "%s nested %d deep does not compile within %s s (parse time grows exponentially with nesting)" % (kind, first_slow, 10 if first_slow else 5), {"main.sy": gen(first_slow)}, cmd="time sylt -o out.lua main.sy")
+            fnd.report("native-slow:%s:from-%d" % (kind, first_slow), "%s nested %d deep needs more than 5 s of CPU time to compile (parse time grows exponentially with nesting)" % (kind, first_slow), {"main.sy": gen(first_slow)}, cmd="time sylt -o out.lua main.sy")
     return n
 
 
